@@ -655,6 +655,9 @@ def call_class(t):
         return 'iter', p
     if 'compare_exchange' in p:
         return 'cas', p
+    if p == 'core::slice::<impl [T]>::get':
+        # `while let Some(x) = slice.get(i)`: None exactly when i >= len - the guard `i < slice.len()` under another spelling
+        return 'num', 'bin:Lt'
     return 'num', 'call ' + p
 
 
